@@ -238,6 +238,19 @@ Theorem C09_run_delete_mode_removes_reported : forall s sort_opt count p es,
 Proof. exact run_delete_mode_removes_reported. Qed.
 Print Assumptions C09_run_delete_mode_removes_reported.
 
+(* "... sub-directories and directories no test addressed are never touched": in the model Clean changes FILES only - the
+   directories of the sandbox (also an empty snapshot directory that a failing call addressed), the registries, the counters
+   and the skip list are what they were, in every mode. (The implementation's directories are observed at every checkpoint
+   and judged by the oracles of C09 and C05.) *)
+Theorem C09_directories_untouched : forall s sort_opt count,
+  s_dirs (fst (clean_run s sort_opt count)) = s_dirs s.
+Proof. exact clean_run_dirs. Qed.
+Print Assumptions C09_directories_untouched.
+Theorem C09_clean_changes_files_only : forall s sort_opt count,
+  exists fs', fst (clean_run s sort_opt count) = set_fs s fs'.
+Proof. exact clean_run_only_fs. Qed.
+Print Assumptions C09_clean_changes_files_only.
+
 (* non-vacuity: every theorem of this file that has hypotheses has a concrete, non-trivial instance meeting ALL of them
    (lemmas <Theorem>_witness / <Theorem>_applied in Proofs/WitnessesP.v); a representative one is restated here *)
 From Snaps Require Import Proofs.WitnessesP.
